@@ -6,28 +6,86 @@ namespace CC.ArraySized
 open CC CC.Gen
 
 /-! ### allocator ledger facts -/
-/-- the ledger is where it was: same number of live blocks, same fault flag, and nothing went
-through the C library allocator -/
-def MemSame (m m' : Mem) : Prop := m'.live = m.live ∧ m'.fault = m.fault ∧ m'.libc = m.libc
+/-- the live-block counter that belongs to a triple -/
+def own (m : Mem) (t : Triple) : Nat := match t with | .conf => m.live | .libc => m.liveLibc
+/-- the counter of successful allocations (of the current operation) that belongs to a triple -/
+def cnt (m : Mem) (t : Triple) : Nat := match t with | .conf => m.nalloc | .libc => m.lalloc
 
-theorem MemSame.refl (m : Mem) : MemSame m m := ⟨rfl, rfl, rfl⟩
-theorem MemSame.trans {a b c : Mem} (h1 : MemSame a b) (h2 : MemSame b c) : MemSame a c :=
+/-- nothing happened on the *other* allocator: for a `.conf` container the C-library counters are
+untouched; for a `.libc` container the configured ledger and its refusal schedule are untouched -/
+def Other (t : Triple) (m m' : Mem) : Prop :=
+  match t with
+  | .conf => m'.libc = m.libc ∧ m'.liveLibc = m.liveLibc ∧ m'.lalloc = m.lalloc ∧ m'.lfree = m.lfree
+  | .libc => m'.live = m.live ∧ m'.nalloc = m.nalloc ∧ m'.nfree = m.nfree ∧ m'.nrefused = m.nrefused ∧
+      m'.sched = m.sched
+
+theorem Other.refl (t : Triple) (m : Mem) : Other t m m := by
+  cases t
+  · exact ⟨rfl, rfl, rfl, rfl⟩
+  · exact ⟨rfl, rfl, rfl, rfl, rfl⟩
+theorem Other.trans {t : Triple} {a b c : Mem} (h1 : Other t a b) (h2 : Other t b c) : Other t a c := by
+  cases t
+  · exact ⟨h2.1.trans h1.1, h2.2.1.trans h1.2.1, h2.2.2.1.trans h1.2.2.1, h2.2.2.2.trans h1.2.2.2⟩
+  · exact ⟨h2.1.trans h1.1, h2.2.1.trans h1.2.1, h2.2.2.1.trans h1.2.2.1, h2.2.2.2.1.trans h1.2.2.2.1,
+      h2.2.2.2.2.trans h1.2.2.2.2⟩
+
+/-- the ledger is where it was for a container with triple `t`: its own live-block counter and the
+fault flag are unchanged, and nothing went through the other allocator -/
+def MemSame (t : Triple) (m m' : Mem) : Prop := own m' t = own m t ∧ m'.fault = m.fault ∧ Other t m m'
+
+theorem MemSame.refl (t : Triple) (m : Mem) : MemSame t m m := ⟨rfl, rfl, Other.refl t m⟩
+theorem MemSame.trans {t : Triple} {a b c : Mem} (h1 : MemSame t a b) (h2 : MemSame t b c) : MemSame t a c :=
+  ⟨h2.1.trans h1.1, h2.2.1.trans h1.2.1, Other.trans h1.2.2 h2.2.2⟩
+
+/-- both live-block counters and the fault flag are where they were (independent of the triple) -/
+def Bal (m m' : Mem) : Prop := m'.live = m.live ∧ m'.liveLibc = m.liveLibc ∧ m'.fault = m.fault
+theorem Bal.refl (m : Mem) : Bal m m := ⟨rfl, rfl, rfl⟩
+theorem Bal.trans {a b c : Mem} (h1 : Bal a b) (h2 : Bal b c) : Bal a c :=
   ⟨h2.1.trans h1.1, h2.2.1.trans h1.2.1, h2.2.2.trans h1.2.2⟩
+theorem MemSame.bal {t : Triple} {m m' : Mem} (h : MemSame t m m') : Bal m m' := by
+  cases t
+  · exact ⟨h.1, h.2.2.2.1, h.2.1⟩
+  · exact ⟨h.2.2.1, h.1, h.2.1⟩
 
-theorem memSame_check (m : Mem) (b : Bool) (hb : b = true) : MemSame m (m.check b) := by
-  subst hb; exact MemSame.refl m
+theorem check_eq (m : Mem) (b : Bool) (hb : b = true) : m.check b = m := by subst hb; rfl
 
-theorem free_of_pos (m : Mem) (h : 0 < m.live) :
-    m.free.live = m.live - 1 ∧ m.free.fault = m.fault ∧ m.free.libc = m.libc := by
-  unfold Mem.free
-  rw [if_neg (by omega)]
-  exact ⟨rfl, rfl, rfl⟩
+theorem allocT_true (m : Mem) (t : Triple) (h : (m.allocT t).1 = true) :
+    own (m.allocT t).2 t = own m t + 1 ∧ (m.allocT t).2.fault = m.fault ∧ Other t m (m.allocT t).2 := by
+  cases t
+  · simp only [Mem.allocT_conf] at *
+    unfold Mem.alloc at *
+    split at h <;> simp_all [own, Other]
+  · exact ⟨rfl, rfl, rfl, rfl, rfl, rfl, rfl⟩
+
+/-- only the configured allocator can refuse; a refusal leaves the ledger as it was -/
+theorem allocT_false (m : Mem) (t : Triple) (h : (m.allocT t).1 = false) :
+    t = .conf ∧ MemSame t m (m.allocT t).2 := by
+  cases t
+  · refine ⟨rfl, ?_⟩
+    simp only [Mem.allocT_conf] at *
+    unfold Mem.alloc at *
+    split at h <;> simp_all [own, Other, MemSame]
+  · cases h
+
+theorem freeT_pos (m : Mem) (t : Triple) (h : 0 < own m t) :
+    own (m.freeT t) t = own m t - 1 ∧ (m.freeT t).fault = m.fault ∧ Other t m (m.freeT t) := by
+  cases t
+  · simp only [Mem.freeT_conf, own] at *
+    unfold Mem.free
+    rw [if_neg (by omega)]
+    exact ⟨rfl, rfl, rfl, rfl, rfl, rfl⟩
+  · simp only [own] at h
+    unfold Mem.freeT
+    dsimp only
+    rw [if_neg (by omega)]
+    exact ⟨rfl, rfl, rfl, rfl, rfl, rfl, rfl⟩
 
 /-- allocate one block, release another one: the ledger is balanced -/
-theorem memSame_alloc_free (m : Mem) (h : m.alloc.1 = true) : MemSame m m.alloc.2.free := by
-  have e := Mem.alloc_fst_true m h
-  have f := free_of_pos m.alloc.2 (by omega)
-  exact ⟨by rw [f.1, e.1]; omega, by rw [f.2.1, e.2.1], by rw [f.2.2, e.2.2]⟩
+theorem memSame_alloc_free (m : Mem) (t : Triple) (h : (m.allocT t).1 = true) :
+    MemSame t m ((m.allocT t).2.freeT t) := by
+  have e := allocT_true m t h
+  have f := freeT_pos (m.allocT t).2 t (by omega)
+  exact ⟨by rw [f.1, e.1]; omega, by rw [f.2.1, e.2.1], Other.trans e.2.2 f.2.2⟩
 
 /-! ### expand_capacity -/
 theorem cap_le_max (a : ArraySized) (h : a.Inv) : a.capacity ≤ CC_MAX_ELEMENTS :=
@@ -46,11 +104,11 @@ theorem nextCapacity_gt (a : ArraySized) (h : a.Inv) (hc : a.capacity ≠ CC_MAX
 theorem expandCapacity_spec (a : ArraySized) (m : Mem) (h : a.Inv) :
     ((a.expandCapacity m).1 = .ok ∧ (a.expandCapacity m).2.1.Inv ∧
       (a.expandCapacity m).2.1.abs = a.abs ∧ (a.expandCapacity m).2.1.size = a.size ∧
-      (a.expandCapacity m).2.1.dataLen = a.dataLen ∧ (a.expandCapacity m).2.1.grow = a.grow ∧
-      a.capacity < (a.expandCapacity m).2.1.capacity ∧ MemSame m (a.expandCapacity m).2.2 ∧ m.alloc.1 = true ∧
+      (a.expandCapacity m).2.1.dataLen = a.dataLen ∧ (a.expandCapacity m).2.1.cfg = a.cfg ∧
+      a.capacity < (a.expandCapacity m).2.1.capacity ∧ MemSame a.triple m (a.expandCapacity m).2.2 ∧ (m.allocT a.triple).1 = true ∧
       ¬ a.AtLimit ∧ (a.expandCapacity m).2.1.capacity = a.nextCapacity) ∨
     ((a.expandCapacity m).1 = .errAlloc ∧ (a.expandCapacity m).2.1 = a ∧
-      MemSame m (a.expandCapacity m).2.2 ∧ m.alloc.1 = false ∧ ¬ a.AtLimit ∧ (a.expandCapacity m).2.2 = m.alloc.2) ∨
+      MemSame a.triple m (a.expandCapacity m).2.2 ∧ (m.allocT a.triple).1 = false ∧ ¬ a.AtLimit ∧ (a.expandCapacity m).2.2 = (m.allocT a.triple).2) ∨
     ((a.expandCapacity m).1 = .errMaxCapacity ∧ (a.expandCapacity m).2.1 = a ∧
       (a.expandCapacity m).2.2 = m ∧ a.AtLimit) := by
   have hh := h
@@ -75,7 +133,7 @@ theorem expandCapacity_spec (a : ArraySized) (m : Mem) (h : a.Inv) :
         · exact hlim hl
       generalize hnc : a.nextCapacity = nc at *
       have hncm : nc * a.dataLen ≤ CC_MAX_ELEMENTS := (Nat.le_div_iff_mul_le hdl).1 (by omega)
-      rcases Bool.eq_false_or_eq_true m.alloc.1 with hal | hal
+      rcases Bool.eq_false_or_eq_true (m.allocT a.triple).1 with hal | hal
       · left
         simp only [hal, Bool.not_true, Bool.false_eq_true, if_false]
         have hsl : a.size * a.dataLen ≤ nc * a.dataLen := slots_le (by omega)
@@ -84,7 +142,7 @@ theorem expandCapacity_spec (a : ArraySized) (m : Mem) (h : a.Inv) :
             decide (a.size * a.dataLen ≤ a.buf.length)) = true := by
           simp [fresh, hsl, hsl2]
         rw [hchk]
-        refine ⟨trivial, ?_, ?_, trivial, trivial, trivial, hgt, ?_, trivial, hnl, trivial⟩
+        refine ⟨trivial, ?_, ?_, trivial, trivial, rfl, hgt, ?_, trivial, hnl, trivial⟩
         · unfold Inv; dsimp only
           exact ⟨hdl, by omega, by omega, by simp [fresh], hncm⟩
         · rw [abs_eq_elems, abs_eq_elems]
@@ -95,10 +153,11 @@ theorem expandCapacity_spec (a : ArraySized) (m : Mem) (h : a.Inv) :
             (by simp only [fresh, List.length_replicate]; exact slot_le (by omega))]
           rw [if_pos (by omega)]
           simp
-        · simpa using memSame_alloc_free m hal
+        · simpa using memSame_alloc_free m a.triple hal
       · right; left
-        have e := Mem.alloc_fst_false m hal
-        simp [MemSame, e, hal, hnl]
+        have e := allocT_false m a.triple hal
+        simp only [hal, Bool.not_false, if_true]
+        exact ⟨trivial, trivial, e.2, trivial, hnl, trivial⟩
 
 /-- the common prologue of `add`/`add_at`: `if (size >= capacity) expand_capacity` -/
 def ensureRoom (a : ArraySized) (m : Mem) : Stat × ArraySized × Mem :=
@@ -107,12 +166,12 @@ def ensureRoom (a : ArraySized) (m : Mem) : Stat × ArraySized × Mem :=
 theorem ensureRoom_spec (a : ArraySized) (m : Mem) (h : a.Inv) :
     ((a.ensureRoom m).1 = .ok ∧ (a.ensureRoom m).2.1.Inv ∧
       (a.ensureRoom m).2.1.abs = a.abs ∧ (a.ensureRoom m).2.1.size = a.size ∧
-      (a.ensureRoom m).2.1.dataLen = a.dataLen ∧ (a.ensureRoom m).2.1.grow = a.grow ∧
+      (a.ensureRoom m).2.1.dataLen = a.dataLen ∧ (a.ensureRoom m).2.1.cfg = a.cfg ∧
       a.capacity ≤ (a.ensureRoom m).2.1.capacity ∧ a.size < (a.ensureRoom m).2.1.capacity ∧
-      MemSame m (a.ensureRoom m).2.2 ∧ (a.size = a.capacity → m.alloc.1 = true ∧ ¬ a.AtLimit)) ∨
+      MemSame a.triple m (a.ensureRoom m).2.2 ∧ (a.size = a.capacity → (m.allocT a.triple).1 = true ∧ ¬ a.AtLimit)) ∨
     (((a.ensureRoom m).1 = .errAlloc ∨ (a.ensureRoom m).1 = .errMaxCapacity) ∧ (a.ensureRoom m).2.1 = a ∧
-      MemSame m (a.ensureRoom m).2.2 ∧ a.size = a.capacity ∧
-      ((a.ensureRoom m).1 = .errAlloc → m.alloc.1 = false) ∧
+      MemSame a.triple m (a.ensureRoom m).2.2 ∧ a.size = a.capacity ∧
+      ((a.ensureRoom m).1 = .errAlloc → (m.allocT a.triple).1 = false) ∧
       ((a.ensureRoom m).1 = .errMaxCapacity → a.AtLimit) ∧
       ((a.ensureRoom m).1 = .errAlloc → ¬ a.AtLimit)) := by
   unfold ensureRoom
@@ -122,11 +181,11 @@ theorem ensureRoom_spec (a : ArraySized) (m : Mem) (h : a.Inv) :
     rcases expandCapacity_spec a m h with ⟨h1, h2, h3, h4, h5, h6, h7, h8, h9, h10, _⟩ | ⟨h1, h2, h3, h4, h5, _⟩ | ⟨h1, h2, h3, h4⟩
     · left; exact ⟨h1, h2, h3, h4, h5, h6, by omega, by omega, h8, fun _ => ⟨h9, h10⟩⟩
     · right; exact ⟨Or.inl h1, h2, h3, by omega, fun _ => h4, (fun hh => by rw [h1] at hh; cases hh), fun _ => h5⟩
-    · right; exact ⟨Or.inr h1, h2, (by rw [h3]; exact MemSame.refl m), by omega,
+    · right; exact ⟨Or.inr h1, h2, (by rw [h3]; exact MemSame.refl _ m), by omega,
         (fun hh => by rw [h1] at hh; cases hh), (fun _ => h4), (fun hh => by rw [h1] at hh; cases hh)⟩
   · rw [if_neg hfull]
     left
-    exact ⟨rfl, h, rfl, rfl, rfl, rfl, Nat.le_refl _, (by dsimp only; omega), MemSame.refl m,
+    exact ⟨rfl, h, rfl, rfl, rfl, rfl, Nat.le_refl _, (by dsimp only; omega), MemSame.refl _ m,
       (fun hh => by omega)⟩
 
 /-! ### stores of whole elements -/
@@ -162,12 +221,12 @@ whole array is exactly as before -/
 theorem add_spec (a : ArraySized) (e : Buf Nat) (m : Mem) (h : a.Inv)
     (he : e.length = a.dataLen) :
     ((a.add e m).1 = .ok ∧ (a.add e m).2.1.Inv ∧ (a.add e m).2.1.abs = a.abs ++ [e] ∧
-      (a.add e m).2.1.dataLen = a.dataLen ∧ (a.add e m).2.1.grow = a.grow ∧
-      a.capacity ≤ (a.add e m).2.1.capacity ∧ MemSame m (a.add e m).2.2 ∧
-      (a.size = a.capacity → m.alloc.1 = true ∧ ¬ a.AtLimit)) ∨
+      (a.add e m).2.1.dataLen = a.dataLen ∧ (a.add e m).2.1.cfg = a.cfg ∧
+      a.capacity ≤ (a.add e m).2.1.capacity ∧ MemSame a.triple m (a.add e m).2.2 ∧
+      (a.size = a.capacity → (m.allocT a.triple).1 = true ∧ ¬ a.AtLimit)) ∨
     (((a.add e m).1 = .errAlloc ∨ (a.add e m).1 = .errMaxCapacity) ∧ (a.add e m).2.1 = a ∧
-      MemSame m (a.add e m).2.2 ∧ a.size = a.capacity ∧
-      ((a.add e m).1 = .errAlloc → m.alloc.1 = false) ∧
+      MemSame a.triple m (a.add e m).2.2 ∧ a.size = a.capacity ∧
+      ((a.add e m).1 = .errAlloc → (m.allocT a.triple).1 = false) ∧
       ((a.add e m).1 = .errMaxCapacity → a.AtLimit) ∧
       ((a.add e m).1 = .errAlloc → ¬ a.AtLimit)) := by
   rw [add_eq]
@@ -246,12 +305,12 @@ theorem addAt_spec (a : ArraySized) (e : Buf Nat) (index : Nat) (m : Mem) (h : a
     (he : e.length = a.dataLen) (hi : index ≤ a.size) :
     ((a.addAt e index m).1 = .ok ∧ (a.addAt e index m).2.1.Inv ∧
       (a.addAt e index m).2.1.abs = a.abs.insertIdx index e ∧
-      (a.addAt e index m).2.1.dataLen = a.dataLen ∧ (a.addAt e index m).2.1.grow = a.grow ∧
-      a.capacity ≤ (a.addAt e index m).2.1.capacity ∧ MemSame m (a.addAt e index m).2.2 ∧
-      (a.size = a.capacity → m.alloc.1 = true ∧ ¬ a.AtLimit)) ∨
+      (a.addAt e index m).2.1.dataLen = a.dataLen ∧ (a.addAt e index m).2.1.cfg = a.cfg ∧
+      a.capacity ≤ (a.addAt e index m).2.1.capacity ∧ MemSame a.triple m (a.addAt e index m).2.2 ∧
+      (a.size = a.capacity → (m.allocT a.triple).1 = true ∧ ¬ a.AtLimit)) ∨
     (((a.addAt e index m).1 = .errAlloc ∨ (a.addAt e index m).1 = .errMaxCapacity) ∧
-      (a.addAt e index m).2.1 = a ∧ MemSame m (a.addAt e index m).2.2 ∧ a.size = a.capacity ∧
-      ((a.addAt e index m).1 = .errAlloc → m.alloc.1 = false) ∧
+      (a.addAt e index m).2.1 = a ∧ MemSame a.triple m (a.addAt e index m).2.2 ∧ a.size = a.capacity ∧
+      ((a.addAt e index m).1 = .errAlloc → (m.allocT a.triple).1 = false) ∧
       ((a.addAt e index m).1 = .errMaxCapacity → a.AtLimit) ∧
       ((a.addAt e index m).1 = .errAlloc → ¬ a.AtLimit)) := by
   by_cases hend : index = a.size
@@ -408,7 +467,7 @@ theorem swapAt_inert (a : ArraySized) (i1 i2 : Nat) (m : Mem) (hi : a.size ≤ i
 theorem swapAt_spec (a : ArraySized) (i1 i2 : Nat) (m : Mem) (h : a.Inv) (h1 : i1 < a.size) (h2 : i2 < a.size) :
     (a.swapAt i1 i2 m).1 = .ok ∧ (a.swapAt i1 i2 m).2.2 = m ∧ (a.swapAt i1 i2 m).2.1.Inv ∧
     (a.swapAt i1 i2 m).2.1.abs = (a.abs.set i1 (a.chunk i2)).set i2 (a.chunk i1) ∧
-    (a.swapAt i1 i2 m).2.1.dataLen = a.dataLen ∧ (a.swapAt i1 i2 m).2.1.grow = a.grow ∧
+    (a.swapAt i1 i2 m).2.1.dataLen = a.dataLen ∧ (a.swapAt i1 i2 m).2.1.cfg = a.cfg ∧
     (a.swapAt i1 i2 m).2.1.capacity = a.capacity ∧ (a.swapAt i1 i2 m).2.1.size = a.size := by
   obtain ⟨j1, j2, j3, j4, j5⟩ := h
   have hs := swapLoop_spec a.dataLen i1 i2 a.buf m a.capacity (by omega) (by omega) j4 a.dataLen 0 a.buf
@@ -417,7 +476,7 @@ theorem swapAt_spec (a : ArraySized) (i1 i2 : Nat) (m : Mem) (h : a.Inv) (h1 : i
   have : (decide (i1 ≥ a.size) || decide (i2 ≥ a.size)) = false := by simp; omega
   rw [this]
   simp only [Bool.false_eq_true, if_false]
-  refine ⟨trivial, hs.1, ⟨j1, j2, j3, by rw [hs.2.1]; exact j4, j5⟩, ?_, trivial, trivial, trivial, trivial⟩
+  refine ⟨trivial, hs.1, ⟨j1, j2, j3, by rw [hs.2.1]; exact j4, j5⟩, ?_, trivial, rfl, trivial, trivial⟩
   rw [abs_eq_elems, abs_eq_elems]
   dsimp only
   apply List.ext_getElem
@@ -459,7 +518,7 @@ theorem elems_erase (b : Buf Nat) (dl i n cap : Nat) (hi : i < n) (hn : n ≤ ca
 theorem removeShift_spec (a : ArraySized) (index : Nat) (m : Mem) (h : a.Inv) (hi : index < a.size) :
     (a.removeShift index m).2 = m ∧ (a.removeShift index m).1.Inv ∧
     (a.removeShift index m).1.abs = a.abs.eraseIdx index ∧
-    (a.removeShift index m).1.dataLen = a.dataLen ∧ (a.removeShift index m).1.grow = a.grow ∧
+    (a.removeShift index m).1.dataLen = a.dataLen ∧ (a.removeShift index m).1.cfg = a.cfg ∧
     (a.removeShift index m).1.capacity = a.capacity ∧ (a.removeShift index m).1.size = a.size - 1 := by
   obtain ⟨j1, j2, j3, j4, j5⟩ := h
   unfold removeShift
@@ -504,7 +563,7 @@ theorem removeAt_spec (a : ArraySized) (index : Nat) (m : Mem) (h : a.Inv) (hi :
     (a.removeAt index m).1 = .ok ∧ (a.removeAt index m).2.1 = a.abs[index]? ∧
     (a.removeAt index m).2.2.2 = m ∧ (a.removeAt index m).2.2.1.Inv ∧
     (a.removeAt index m).2.2.1.abs = a.abs.eraseIdx index ∧
-    (a.removeAt index m).2.2.1.dataLen = a.dataLen ∧ (a.removeAt index m).2.2.1.grow = a.grow ∧
+    (a.removeAt index m).2.2.1.dataLen = a.dataLen ∧ (a.removeAt index m).2.2.1.cfg = a.cfg ∧
     (a.removeAt index m).2.2.1.capacity = a.capacity ∧ (a.removeAt index m).2.2.1.size = a.size - 1 := by
   have s1 : a.dataLen * index + a.dataLen ≤ a.buf.length := slot_in a h index (by have := h.2.2.1; omega)
   have hs := removeShift_spec a index m h hi
@@ -532,7 +591,7 @@ theorem removeLast_spec (a : ArraySized) (m : Mem) (h : a.Inv) (h0 : 0 < a.size)
     (a.removeLast m).1 = .ok ∧ (a.removeLast m).2.1 = a.abs.getLast? ∧
     (a.removeLast m).2.2.2 = m ∧ (a.removeLast m).2.2.1.Inv ∧
     (a.removeLast m).2.2.1.abs = a.abs.dropLast ∧
-    (a.removeLast m).2.2.1.dataLen = a.dataLen ∧ (a.removeLast m).2.2.1.grow = a.grow ∧
+    (a.removeLast m).2.2.1.dataLen = a.dataLen ∧ (a.removeLast m).2.2.1.cfg = a.cfg ∧
     (a.removeLast m).2.2.1.capacity = a.capacity := by
   unfold removeLast
   rw [wdec_pos _ h0]
@@ -716,7 +775,7 @@ theorem remove_spec (a : ArraySized) (e : Buf Nat) (m : Mem) (h : a.Inv) (he : e
     (a.remove e m).1 = (Spec.SSeq.remove a.abs e).1 ∧ (a.remove e m).2.2 = m ∧ (a.remove e m).2.1.Inv ∧
     (a.remove e m).2.1.abs = (Spec.SSeq.remove a.abs e).2 ∧
     ((a.remove e m).1 ≠ .ok → (a.remove e m).2.1 = a) ∧
-    (a.remove e m).2.1.dataLen = a.dataLen ∧ (a.remove e m).2.1.grow = a.grow ∧
+    (a.remove e m).2.1.dataLen = a.dataLen ∧ (a.remove e m).2.1.cfg = a.cfg ∧
     (a.remove e m).2.1.capacity = a.capacity := by
   unfold remove Spec.SSeq.remove
   rw [indexOf_spec a e m h he]
